@@ -815,7 +815,7 @@ def compare(ctx, case, m, res, label):
         return
     try:
         im = canon_impl(res)
-    except ValueError as e:
+    except (ValueError, OverflowError) as e:      # nan / inf / a non-dyadic value: uninitialised or mis-scaled memory
         ctx.disagree('staging[%s] returned a value that no input encodes (%s)' % (label, e), case, 'exact', 'inexact')
         return
     mm = {'numslabs': m['numslabs'], 'hid': m['hid'], 'phid': m['phid'], 'pinds': m['pinds'], 'halo': m['halo'],
